@@ -73,17 +73,20 @@ class Keys:
             self.rsa = RSAKey.generate_key(2048, private=True)
             self.ec = {c: ECKey.generate_key(c, private=True) for c in ("P-256", "P-384", "P-521", "secp256k1")}
             self.okp = {c: OKPKey.generate_key(c, private=True) for c in ("Ed25519", "X25519")}
+            self.sender = ECKey.generate_key("P-256", private=True)      # ECDH-1PU sender key
         else:
             self.oct = {int(n): OctKey.import_key(d) for n, d in jwks["oct"].items()}
             self.rsa = RSAKey.import_key(jwks["rsa"])
             self.ec = {c: ECKey.import_key(d) for c, d in jwks["ec"].items()}
             self.okp = {c: OKPKey.import_key(d) for c, d in jwks["okp"].items()}
+            self.sender = ECKey.import_key(jwks["sender"]) if "sender" in jwks else self.ec["P-256"]
 
     def export(self):
         return {"oct": {str(n): k.as_dict(private=True) for n, k in self.oct.items()},
                 "rsa": self.rsa.as_dict(private=True),
                 "ec": {c: k.as_dict(private=True) for c, k in self.ec.items()},
-                "okp": {c: k.as_dict(private=True) for c, k in self.okp.items()}}
+                "okp": {c: k.as_dict(private=True) for c, k in self.okp.items()},
+                "sender": self.sender.as_dict(private=True)}
 
     def jws(self, alg):
         from joserfc.jws import JWSRegistry
@@ -319,32 +322,33 @@ def make_token(d, K):
         oke = isinstance(enc, str) and enc in EE
         oka = all(isinstance(a, str) and a in EA for a in algs)
         genuine = okz and oke and oka
+        skw = {"sender_key": K.sender} if d.get("sender") else {}
         if op in ("jwe.decrypt_compact", "jwt.decode/jwe"):
             a = algs[0]
             if genuine:
                 pt = json.dumps(CLAIMS).encode() if op == "jwt.decode/jwe" else PLAINTEXT
-                return jwe.encrypt_compact(jwe_protected(a, enc, zipv), pt, K.jwe(a, enc), registry=perm)
+                return jwe.encrypt_compact(jwe_protected(a, enc, zipv), pt, K.jwe(a, enc), registry=perm, **skw)
             return craft_jwe(d, K, "compact")
         if op == "jwe.decrypt_json/flat":
             a = algs[0]
             if genuine:
                 obj = jwe.FlattenedJSONEncryption(jwe_protected(a, enc, zipv, False), PLAINTEXT)
                 obj.add_recipient(recipient_header(a), K.jwe(a, enc))
-                return jwe.encrypt_json(obj, None, registry=perm)
+                return jwe.encrypt_json(obj, None, registry=perm, **skw)
             return craft_jwe(d, K, "flat")
         if op == "jwe.decrypt_json/general":
             if genuine:
                 obj = jwe.GeneralJSONEncryption(jwe_protected(None, enc, zipv, False), PLAINTEXT)
                 for a in algs:
                     obj.add_recipient(recipient_header(a), K.jwe(a, enc))
-                return jwe.encrypt_json(obj, None, registry=perm)
+                return jwe.encrypt_json(obj, None, registry=perm, **skw)
             reals = [a for a in algs if isinstance(a, str) and a in EA]
             if okz and oke and reals:
                 # genuine recipients for the registered algs, hand-built ones for the others, in order
                 obj = jwe.GeneralJSONEncryption(jwe_protected(None, enc, zipv, False), PLAINTEXT)
                 for a in reals:
                     obj.add_recipient(recipient_header(a), K.jwe(a, enc))
-                out = jwe.encrypt_json(obj, None, registry=perm)
+                out = jwe.encrypt_json(obj, None, registry=perm, **skw)
                 made = list(out["recipients"])
                 out["recipients"] = [made.pop(0) if (isinstance(a, str) and a in EA) else
                                      {"header": recipient_header(a), "encrypted_key": b64(b"\x05" * 24)} for a in algs]
@@ -423,6 +427,7 @@ def _execute(d, K, regobj=None, kwout=None):
     if kwout is not None:
         kwout.update(kw)
     jkey = lambda o: K.jws(_alg_of(o))   # noqa: E731
+    skw = {"sender_key": K.sender} if d.get("sender") else {}
     # ---- JWS signing
     if op == "jws.serialize_compact":
         jws.serialize_compact({"alg": d["algs"][0]}, PAYLOAD, jkey, **kw)
@@ -460,7 +465,7 @@ def _execute(d, K, regobj=None, kwout=None):
         a, enc = d["algs"][0], d["enc"]
         h = jwe_protected(a, enc, d["zip"])
         if op == "jwe.encrypt_compact":
-            jwe.encrypt_compact(h, PLAINTEXT, K.jwe(a, enc), **kw)
+            jwe.encrypt_compact(h, PLAINTEXT, K.jwe(a, enc), **kw, **skw)
         else:
             jwt.encode(h, CLAIMS, K.jwe(a, enc), **kw)
     elif op in ("jwe.encrypt_json/flat", "jwe.encrypt_json/general"):
@@ -469,18 +474,18 @@ def _execute(d, K, regobj=None, kwout=None):
         obj = cls(jwe_protected(None, enc, d["zip"], False), PLAINTEXT)
         for a in d["algs"]:
             obj.add_recipient(recipient_header(a), K.jwe(a, enc))
-        jwe.encrypt_json(obj, None, **kw)
+        jwe.encrypt_json(obj, None, **kw, **skw)
     elif op in JWE_DEC_OPS:
         enc = d["enc"]
         ekey = lambda r: K.jwe(_alg_of(r), enc)   # noqa: E731
         if op == "jwe.decrypt_compact":
-            o = jwe.decrypt_compact(d["token"], ekey, **kw)
+            o = jwe.decrypt_compact(d["token"], ekey, **kw, **skw)
             assert o.plaintext == PLAINTEXT
         elif op == "jwt.decode/jwe":
             t = jwt.decode(d["token"], ekey, **kw)
             assert t.claims == CLAIMS
         else:
-            o = jwe.decrypt_json(d["token"], ekey, **kw)
+            o = jwe.decrypt_json(d["token"], ekey, **kw, **skw)
             assert o.plaintext == PLAINTEXT
     else:
         raise ValueError("unknown op " + op)
@@ -1023,24 +1028,117 @@ class Pristine:
 
 
 # ---- drafts world (subprocess: registration changes the process-wide tables) --------------
-def _drafts_main():
-    from joserfc import jws, jwe  # noqa: F401
+def _register_drafts():
     from joserfc.drafts.jwe_ecdh_1pu import register_ecdh_1pu
     from joserfc.drafts.jwe_chacha20 import register_chaha20_poly1305
     register_ecdh_1pu()
     register_chaha20_poly1305()
-    calls = json.load(sys.stdin)
+
+
+def _to_json(d):
+    out = {k: ("__absent__" if v is ABSENT else v) for k, v in d.items()}
+    if d["registry"] is not ABSENT:
+        out["registry"] = list(d["registry"])
+    return out
+
+
+def _from_json(d):
+    out = {k: (ABSENT if (isinstance(v, str) and v == "__absent__") else v) for k, v in d.items()}
+    if out["registry"] is not ABSENT:
+        out["registry"] = tuple(out["registry"])
+    return out
+
+
+def drafts_entry_calls(rng, SUP, base):
+    """entry-point calls naming the draft algorithms: no list / default registry / bare
+    registry / empty list (must be refused) and explicit lists (must be accepted)"""
+    d_alg = [a for a in SUP["alg"] if a not in base["alg"]]
+    d_enc = [e for e in SUP["enc"] if e not in base["enc"]]
+    cbc = [e for e in base["enc"] if "CBC" in e]
+    combos = []
+    for a in d_alg:
+        # key agreement with key wrapping only works with the CBC-HS family
+        encs = (cbc if "+" in a else cbc + d_enc + ["A128GCM"])
+        for e in encs:
+            combos.append((a, e, True))
+    for e in d_enc:
+        for a in ("dir", "A128KW", "ECDH-ES", "ECDH-ES+A128KW", "RSA-OAEP"):
+            if a in SUP["alg"]:
+                combos.append((a, e, False))
+    calls = []
+    universe = SUP["alg"] + SUP["enc"] + SUP["zip"]
+    for a, e, sender in combos:
+        used = [a, e]
+        for op in JWE_ENC_OPS + JWE_DEC_OPS:
+            jwt_op = op.startswith("jwt")
+            if jwt_op and sender:
+                forms = [("reg", None), ("reg", [])]         # jwt cannot pass a sender key: refusal only
+            else:
+                forms = [("none", None), ("reg", None), ("reg", []), ("alg", []), ("alg", used), ("reg", used),
+                         ("alg", used + ["DEF", "XX"]), ("reg", list(universe)), ("alg", [a]), ("reg", [e]),
+                         ("alg", [n for n in universe if n not in used])]
+                if jwt_op:
+                    forms = [f for f in forms if f[0] == "reg"] + [("both", used)]
+            for mode, lst in forms:
+                if op.endswith("general") and ("+" not in a and a in ("dir", "ECDH-ES", "ECDH-1PU")):
+                    algs = [a]
+                elif op.endswith("general") and a != "RSA-OAEP":
+                    algs = [a, a]
+                else:
+                    algs = [a]
+                d = {"op": op, "algs": algs, "enc": e, "zip": rng.choice([ABSENT, ABSENT, "DEF"]), "sender": sender,
+                     "algorithms": ABSENT, "registry": ABSENT}
+                if mode == "alg":
+                    d["algorithms"] = lst
+                elif mode == "reg":
+                    d["registry"] = ("jwe", lst)
+                elif mode == "both":
+                    d["algorithms"], d["registry"] = lst, ("jwe", None)
+                if d["zip"] is not ABSENT and lst and mode != "none" and rng.random() < 0.7 and "DEF" not in lst:
+                    d["zip"] = ABSENT
+                calls.append(d)
+    return calls
+
+
+def _drafts_main():
+    import random
+    from joserfc import jws, jwe  # noqa: F401
+    base = {k: list(v) for k, v in jwe.JWERegistry.algorithms.items()}
+    _register_drafts()
+    req = json.load(sys.stdin)
     out = []
+    for d in req["gate_calls"]:
+        out.append(list(verdict_of(execute(_from_json(d), None))))
+    rng = random.Random(req["seed"])
+    K = Keys(rng)
+    SUP = {"jws": list(jws.JWSRegistry.algorithms), "alg": list(jwe.JWERegistry.algorithms["alg"]),
+           "enc": list(jwe.JWERegistry.algorithms["enc"]), "zip": list(jwe.JWERegistry.algorithms["zip"])}
+    usable = {k: [n for n in SUP[k] if n in (jws.JWSRegistry.recommended if k == "jws" else jwe.JWERegistry.recommended)]
+              for k in SUP}
+    entries = []
+    calls = drafts_entry_calls(rng, SUP, base)
+    if len(calls) > req["max_entry_calls"]:
+        calls = rng.sample(calls, req["max_entry_calls"])
+    snap0 = snapshot()
     for d in calls:
-        d["algorithms"] = ABSENT
-        d["registry"] = ABSENT if d["registry"] == "__absent__" else tuple(d["registry"])
-        out.append(list(verdict_of(execute(d, None))))
-    names = {k: list(v) for k, v in jwe.JWERegistry.algorithms.items()}
-    json.dump({"verdicts": out, "names": names, "recommended": list(jwe.JWERegistry.recommended)}, sys.stdout)
+        note = None
+        if d["op"] in JWE_DEC_OPS:
+            try:
+                d["token"] = make_token(d, K)
+            except BaseException as e:  # noqa
+                entries.append({"call": _to_json(d), "verdict": None, "direct": None, "note": "token production failed: %r" % (e,)})
+                continue
+        v = verdict_of(execute(d, K))
+        bad = direct(d, v, SUP)
+        if snapshot() != snap0:
+            bad = bad or ("state-changed", "process-wide registry state changed")
+        entries.append({"call": _to_json(d), "verdict": list(v), "direct": list(bad) if bad else None, "note": note})
+    json.dump({"verdicts": out, "names": SUP, "usable": usable, "entries": entries, "keys": K.export(),
+               "recommended": list(jwe.JWERegistry.recommended)}, sys.stdout)
 
 
 def drafts_cases(ctx):
-    """gate calls in a process where the draft algorithms were registered"""
+    """calls in a process where the draft algorithms were registered"""
     rng = ctx.rng
     names = ["ECDH-1PU", "ECDH-1PU+A128KW", "ECDH-1PU+A192KW", "ECDH-1PU+A256KW", "C20P", "XC20P",
              "A128GCM", "A128KW", "dir", "DEF", "XX", "HS256"]
@@ -1052,16 +1150,15 @@ def drafts_cases(ctx):
             for a in (None, [], [n], ["C20P", "ECDH-1PU", "A128KW"], rng.sample(names, 4)):
                 calls.append({"op": op, "name": n, "algorithms": "__absent__", "registry": ["jwe" if op.startswith("jwe") else "jws", a]})
     import subprocess
+    req = {"gate_calls": calls, "seed": rng.randrange(1 << 30), "max_entry_calls": ctx.scale(700, 100000)}
     p = subprocess.run([lib.PY, "-W", "ignore", "-c",
                         "import sys; sys.path.insert(0, %r); from props import c05; c05._drafts_main()" %
-                        os.path.join(lib.VERIF, "harness")], input=json.dumps(calls), env=lib.child_env(),
-                       stdout=subprocess.PIPE, stderr=subprocess.PIPE, text=True, timeout=120)
+                        os.path.join(lib.VERIF, "harness")], input=json.dumps(req), env=lib.child_env(),
+                       stdout=subprocess.PIPE, stderr=subprocess.PIPE, text=True, timeout=600)
     if p.returncode != 0:
         return None, p.stderr[-1500:], None
     res = json.loads(p.stdout)
-    for d in calls:
-        d["algorithms"] = ABSENT
-        d["registry"] = ABSENT if d["registry"] == "__absent__" else tuple(d["registry"])
+    calls = [_from_json(d) for d in calls]
     return calls, [tuple(v) for v in res["verdicts"]], res
 
 
@@ -1346,6 +1443,36 @@ def run(ctx):
             meta.append(("drafts-call", d, v))
             ctx.note_case(("drafts", key_of(d)))
         dist["drafts_calls"] = len(dcalls)
+        # default sets in the drafts world against the literals of the property text
+        for kind, lit in (("jws", REC_JWS), ("alg", REC_JWE_ALG), ("enc", REC_JWE_ENC), ("zip", REC_JWE_ZIP)):
+            if set(dres["usable"][kind]) != set(lit):
+                ctx.violation({"kind": "default-set", "which": kind, "drafts": True,
+                               "diff": sorted(set(dres["usable"][kind]) ^ set(lit))},
+                              "after register_ecdh_1pu(); register_chaha20_poly1305() the %s names usable without an explicit "
+                              "list are %r, the property says %r" % (kind, dres["usable"][kind], lit),
+                              {"check": "default-set", "which": kind, "drafts": True, "usable": dres["usable"][kind], "expected": lit})
+        n_ok = 0
+        for ent in dres["entries"]:
+            d = _from_json(ent["call"])
+            if ent["verdict"] is None:
+                ctx.notes.append("drafts: %s %s" % (describe(d), ent["note"]))
+                continue
+            v = tuple(ent["verdict"])
+            n_ok += v[0] == "ok"
+            ctx.note_case(("drafts-entry", key_of(d)))
+            dist["drafts:" + d["op"]] = dist.get("drafts:" + d["op"], 0) + 1
+            if ent["direct"]:
+                blob = base64.b64encode(pickle.dumps({"keys": dres["keys"], "calls": [d], "index": 0, "heap": [],
+                                                      "drafts": True})).decode("ascii")
+                ctx.violation({"kind": ent["direct"][0], "op": d["op"], "drafts": True},
+                              "after registering the draft algorithms: %s(%s): %s" % (
+                                  d["op"], ", ".join("%s=%r" % (k, x) for k, x in d.items()
+                                                     if k in ("algs", "enc", "zip", "algorithms", "registry")), ent["direct"][1]),
+                              {"check": "direct", "drafts": True, "call": describe(d), "verdict": list(v), "blob": blob})
+            cases.append("Hist true [%s] [%s] []" % (c_call(d), c_verdict_for(d, v)))
+            meta.append(("drafts-call", d, v))
+        dist["drafts_entry_calls"] = len(dres["entries"])
+        dist["drafts_entry_ok"] = n_ok
     if snapshot() != snap0 and not state_reported[0]:
         ctx.violation({"kind": "state-changed", "op": "end"}, "process-wide registry state differs at the end of the run",
                       {"check": "state"})
@@ -1418,6 +1545,8 @@ def replay(path):
         print("no executable call recorded (proof / correspondence level finding): re-run ./check C05")
         return 1
     blob = pickle.loads(base64.b64decode(rep["blob"]))
+    if blob.get("drafts"):
+        _register_drafts()
     K = Keys(jwks=blob["keys"])
     del HEAP[:], HEAP_SNAP[:], TRACK[:]
     for sd in blob.get("heap", []):
